@@ -38,15 +38,22 @@ def generate_histories(thorough, seed):
     args = common.tlc_printed(out, 'ARGS')
     if rc != 0 or not hs or not args:
         raise MachineryError('generation of call histories failed:\n' + out[-3000:])
+    if thorough:
+        # every history of the quick depth, and a seeded sample of the deeper ones (time budget)
+        rc, out = common.run_tlc('LeakGen', 'LeakGen.cfg', workers=1, timeout=1200)
+        short = common.tlc_printed(out, 'HIST')
+        if rc != 0 or not short:
+            raise MachineryError('generation of call histories failed:\n' + out[-3000:])
+        hs = short + random.Random(seed).sample(hs, min(len(hs), 45000))
     rc, out = common.run_tlc('LeakGen', 'LeakGen_sim.cfg', workers=1, timeout=1200,
-                             extra=['-simulate', 'num=%d' % (4000 if thorough else 250), '-depth', '8', '-seed', str(seed % 2 ** 31)])
+                             extra=['-simulate', 'num=%d' % (2500 if thorough else 250), '-depth', '8', '-seed', str(seed % 2 ** 31)])
     sim = common.tlc_printed(out, 'HIST')
     if not sim:
         raise MachineryError('simulation of long call histories failed:\n' + out[-3000:])
     uniq = {}
     for h in sim:
         uniq[(h['start'], tuple(h['hist']))] = h
-    return hs, list(uniq.values())[:(4000 if thorough else 250)], args[0]
+    return hs, list(uniq.values())[:(2500 if thorough else 250)], args[0]
 
 
 def describe_key(res):
@@ -103,7 +110,7 @@ def run(replay=None):
         for n, h in enumerate(hs + sim + [{'start': a, 'hist': b} for a, b in LISTED]):
             key_jobs.append((h['start'], h['hist'], seed * 1000003 + n))       # one seeded instantiation per history
         # every creation route (quick: once each), seeded witness type and calls
-        nw = 8 * len(c16_drv.WALLET_KINDS) if thorough else len(c16_drv.WALLET_KINDS)
+        nw = 6 * len(c16_drv.WALLET_KINDS) if thorough else len(c16_drv.WALLET_KINDS)
         for i in range(nw):
             wk = list(c16_drv.WALLET_KINDS[i % len(c16_drv.WALLET_KINDS)])
             wallet_jobs.append((seed % 100000 * 1000 + i, wk, c16_drv.gen_wallet_history(rng, rng.randrange(3, 7), wk[0])))
